@@ -5,7 +5,7 @@ import re
 
 from ..core import hexs, unhex, sx_parse
 from ..runner import Stream
-from .. import parse_streams
+from .. import parse_streams, gen_cmd
 from ..parse_common import parse_result
 
 ID = "C04"
@@ -22,6 +22,15 @@ RULE = ("int: for each target type u8..i64 x boundary, debug-assert-violating an
         "stored (round 2, full parser): random command trees with at least one ranged-i64 / bool / count argument "
         "(vp/gen_cmd.py), defaults, env values and subcommands as generated, 6 mostly-valid or mutated lines each; "
         "non-trivial = a successful parse in which a reported value was checked against such a parser.  "
+        "stored_wide (round 4, full parser): random command trees in which arguments (and the external-subcommand "
+        "parser) carry boolish / falsey / non-empty / possible-value (aliases, hidden values, ignore_case from the "
+        "argument's flag) / value_parser!(T).range(lo..=hi) for u8..u64 parsers; values, defaults and env values drawn "
+        "around each language boundary (literals in flipped case, near misses, U+212A, names of hidden values, wrong "
+        "case with and without ignore_case, lo-1/lo/hi/hi+1, T::MIN-1, T::MAX+1, +-2^63, 2^64, -0, lone sign, "
+        "non-UTF-8); a third more cases are SIMPLE lines (one level, options with only a value parser, each given once "
+        "as --name=value) on which the oracle decides the outcome exactly from the property text (ok and stored as typed "
+        "iff every value is in its parser's language, a value error otherwise); "
+        "non-trivial = a successful parse storing a value under such a parser, or a value-error rejection.  "
         "Non-trivial: int = the candidate is a well-formed decimal (so range/width decided) or carries a decoration "
         "trap; bool = ASCII-lowercases to a literal or contains non-ASCII; possible = some declared name equals the "
         "value up to case; store = the history contains a failing access or a removal.  Distinct = distinct case text.")
@@ -29,7 +38,10 @@ TRUSTED = [
     "Coq 8.16.1 kernel (coqc); no native_compute; theorems C04_* are 'Closed under the global context'",
     "extraction: ExtrOcamlBasic only, no Extract Constant; OCaml driver ocaml/value_driver.ml + zarith conversions",
     "correspondence: vp/props/c04.py generators, harness/src/modes/value.rs, string comparison of canonical results; "
-    "stream `stored`: vp/gen_cmd.py, harness/src/modes/parse.rs, ocaml/parse_driver.ml (the parser model of C01-C11)",
+    "streams `stored`/`stored_wide`: vp/gen_cmd.py, harness/src/modes/parse.rs, ocaml/parse_driver.ml (the parser model of C01-C11)",
+    "round 4: ocaml/common_parse/spec.ml copies the argument's ignore_case flag into VPPossible's `ic` (what "
+    "PossibleValuesParser::parse_ref reads from the Arg it is called for); Cmd.pv_coherent states it, "
+    "C04_stored_possible_arg uses it, stream stored_wide exercises ignore_case on/off against the real crate",
     "round 2 imports the parser-model proof files of C01/C02/C09/C10 (Invariant, IndexInv, Provenance, Dispatch, Chain, "
     "Globals, KindSound, Unparse*) as lemmas; their theorems are closed under the global context",
     "translators/tables.py: regex extraction of TRUE_LITERALS/FALSE_LITERALS, the shape of str_to_bool and of the "
@@ -44,9 +56,13 @@ ASSUMPTIONS = [
     "definition and of every successful level of the recursion (C04_parse_store_wf, C04_level_store_wf) -- for the merged result and for levels that failed under ignore_errors it remains an assumption",
     "the matcher model stores raw values only; 'the typed value next to a raw value' is typed_value (TypedView.v), the "
     "C04 model of value_parser.parse_ref applied to it (push_arg_values pushes both with one add_val_to call)",
-    "whole-parse corollaries exist for the value parsers a definition of the parser model can name (String, OsString, "
-    "bool, the u8 parser of Count, RangedI64ValueParser<i64>); boolish/falsey/non-empty/possible/enum and the other "
-    "widths have their per-parser theorems and the implementation-side streams only",
+    "whole-parse corollaries exist for the value parsers a definition of the parser model can name: String, OsString, "
+    "bool, the u8 parser of Count, RangedI64ValueParser<i64> and (round 4) boolish, falsey, non-empty, possible values, "
+    "value_parser!(T).range(lo..=hi) for every integer width; EnumValueParser (a derive-side parser, C15 models it by "
+    "a stand-in) has its per-parser theorems and the implementation-side stream only",
+    "a VPRanged t lo hi of the parser model denotes value_parser!(T).range(lo..=hi) with lo, hi inside T (outside, "
+    "the debug build panics while the command is DEFINED: stream `int` / C04_range_builder cover that; the parse-"
+    "level generator keeps the bounds inside T)",
     "non-ASCII case-insensitive matching is the Unicode full case folding of unicase (table from python's casefold); "
     "the oracle brackets it (must accept exact/ASCII-caseless matches, must reject what no folding equates)",
     "debug-assertion behaviour (range() asserts, verify_arg's UnknownArgument) is modelled by a flag and exercised in "
@@ -787,7 +803,7 @@ def _level_defs(cmd, chain_names):
     return out
 
 
-def _in_language(vp, raw):
+def _in_language(vp, raw, icase=False):
     if vp == "os":
         return True
     if vp == "string":
@@ -799,6 +815,17 @@ def _in_language(vp, raw):
     if isinstance(vp, tuple) and vp[0] == "i64":
         return (is_utf8(raw) and bool(DEC_SIGNED.match(raw)) and vp[1] <= big_reading(raw) <= vp[2]
                 and I64_MIN <= big_reading(raw) <= I64_MAX)
+    # round 4: the parsers the case format can now name (the same independent readings as the streams
+    # `int` / `bool` / `possible` use on parse_ref directly)
+    if vp in ("boolish", "falsey", "nonempty"):
+        return expect_bool(vp, raw)[0] == "ok"
+    if isinstance(vp, tuple) and vp[0] == "int":
+        return expect_int(vp[1], ("incl", vp[2]), ("incl", vp[3]), raw)[0] == "ok"
+    if isinstance(vp, tuple) and vp[0] == "pv":
+        if not is_utf8(raw):
+            return False
+        names = [x for n, al, _hide in vp[1] for x in [n] + list(al)]      # hidden values are values
+        return expect_match(names, raw, icase) is not False                 # None: non-ASCII caseless, either verdict
     return True
 
 
@@ -828,7 +855,7 @@ def _stored_walk(case, impl):
                 for raw in g:
                     if vp not in ("os", "string"):
                         checked += 1
-                    if not _in_language(vp, raw):
+                    if not _in_language(vp, raw, "icase" in a.get("flags", ())):
                         return ("level %d: argument %r (parser %r) reports the value %r, which its value parser does not accept"
                                 % (k, e["id"], vp, raw)), checked, skipped
     return None, checked, skipped
@@ -874,9 +901,194 @@ def gen_stored(tier, rng):
     return parse_streams.gen_cases(rng, n, None, per_cmd=6, p_mutate=0.25, safe_p=0.8, want=_has_typed_arg)
 
 
+# ----------------------------------------------------------------- stream `stored_wide` (round 4)
+# The same reading on commands whose arguments carry the value parsers the parser MODEL can name since round 4:
+# boolish / falsey / non-empty / possible values (hidden values, aliases, ignore_case from the argument's flag) /
+# value_parser!(T).range(lo..=hi) for u8..u64.  Values are drawn around each parser's language boundary
+# (gen_cmd.wide_value): literals in flipped case, near misses, U+212A, names of hidden values, wrong case with and
+# without ignore_case, lo-1/lo/hi/hi+1, T::MIN-1/T::MAX+1, +/-2^63, 2^64, "-0", "+", non-UTF-8.
+WIDE_PROFILE = dict(vp_wide=0.55, vp_wide_ext=0.4, typed=0.25, defaults=0.35, env=0.25, max_opts=4, max_pos=2, invalid=0.01)
+VALUE_KINDS = ("InvalidValue", "ValueValidation", "InvalidUtf8")
+
+
+def _has_wide_arg(c):
+    return any(gen_cmd.vp_is_wide(a.get("vp")) for a in c["args"]) or any(_has_wide_arg(sc) for sc in c["subs"])
+
+
+def _wide_kind(vp):
+    return vp if isinstance(vp, str) else (vp[0] if vp[0] != "int" else "int-" + vp[1])
+
+
+def gen_wide_simple(rng, n):
+    """SIMPLE lines: one level, 1..3 options `--oK` (action set, a wide or ranged-i64 value parser, ignore_case now and
+    then, nothing else), each given once as `--oK=value`: the outcome is decided exactly by the property text
+    (`_simple_expect`), independently of any model of the parser loop"""
+    out = []
+    while len(out) < n:
+        k = rng.randrange(1, 4)
+        args = []
+        for j in range(k):
+            name = ("o%d" % j).encode()
+            a = {"id": name, "long": name, "action": "set", "flags": set()}
+            a["vp"] = gen_cmd.gen_wide_vp(rng, None) if rng.random() < 0.9 else ("i64", -5, 300)
+            if isinstance(a["vp"], tuple) and a["vp"][0] == "pv" and rng.random() < 0.5:
+                a["flags"].add("icase")
+            args.append(a)
+        c = {"name": b"p", "args": args, "groups": [], "subs": [], "settings": [], "aliases": []}
+        for _ in range(4):
+            order = list(args)
+            rng.shuffle(order)
+            argv = [b"p"]
+            for a in order:
+                if rng.random() < 0.85:
+                    v = gen_cmd.wide_value(rng, a, rng.random() < 0.7) if gen_cmd.vp_is_wide(a["vp"]) else \
+                        gen_cmd.value_for(rng, a, rng.random() < 0.7)
+                    argv.append(b"--" + a["long"] + b"=" + v)
+            out.append(gen_cmd.case_sx(c, argv, mode="parse"))
+    return out[:n]
+
+
+def gen_stored_wide(tier, rng):
+    n = 6000 if tier == "quick" else 60000
+    return (parse_streams.gen_cases(rng, n, WIDE_PROFILE, per_cmd=6, p_mutate=0.2, safe_p=0.75, want=_has_wide_arg)
+            + gen_wide_simple(rng, n // 3))
+
+
+_PLAIN_ARG_KEYS = {"id", "long", "action", "vp", "flags", "aliases", "saliases", "difs", "requires_if", "r_if", "r_if_all",
+                   "short"}
+
+
+def _simple_line(cmd, argv):
+    """[(arg, value)] in argv order if the case is a SIMPLE line (see gen_wide_simple), else None"""
+    if cmd["subs"] or cmd["groups"] or cmd["settings"] or cmd.get("ext") or cmd.get("ext_items"):
+        return None
+    by_long = {}
+    for a in cmd["args"]:
+        if set(k for k, v in a.items() if v not in (None, [], set(), ())) - _PLAIN_ARG_KEYS:
+            return None
+        if a.get("action") != "set" or not a.get("long") or a.get("short") or a["flags"] - {"icase"}:
+            return None
+        if a["aliases"] or a["saliases"] or a["difs"] or a["requires_if"] or a["r_if"] or a["r_if_all"]:
+            return None
+        if a["long"] in (b"help", b"version") or a["long"] in by_long:
+            return None
+        by_long[a["long"]] = a
+    out, seen = [], set()
+    for t in argv[1:]:
+        if not t.startswith(b"--") or b"=" not in t:
+            return None
+        name, _, v = t[2:].partition(b"=")
+        a = by_long.get(name)
+        if a is None or name in seen:
+            return None
+        seen.add(name)
+        out.append((a, v))
+    return out
+
+
+def simple_oracle(case, impl):
+    """two-sided, from the property text: on a SIMPLE line the parse succeeds and stores every value exactly as
+    typed iff each value lies in the language of its argument's parser; otherwise it fails with a value error"""
+    cmd, argv = parse_streams.decode_case(case)
+    line = _simple_line(cmd, argv)
+    if line is None or not argv:
+        return None
+    p = parse_result(impl)
+    if p["kind"] not in ("ok", "err"):
+        return None                      # panics / invalid definitions: C01's
+    verdicts = []
+    for a, v in line:
+        vp = _vp_of(a)
+        if isinstance(vp, tuple) and vp[0] == "pv" and is_utf8(v):
+            names = [x for n, al, _h in vp[1] for x in [n] + list(al)]
+            verdicts.append(expect_match(names, v, "icase" in a["flags"]))     # None = either (non-ASCII caseless)
+        else:
+            verdicts.append(_in_language(vp, v, "icase" in a["flags"]))
+    if any(x is None for x in verdicts):
+        return None
+    if all(verdicts):
+        if p["kind"] != "ok":
+            return ("every value of the line lies in the language of its argument's parser, but the parse failed with %s"
+                    % p.get("ekind"))
+        ents = {e["id"]: e for e in parse_streams.levels(p["m"])[0][0]}
+        for a, v in line:
+            e = ents.get(a["id"])
+            if e is None or e["occ"] != [[v]]:
+                return "argument %r: expected the stored value %r, reported %r" % (a["id"], v, e and e["occ"])
+        return None
+    a, v = [(a, v) for (a, v), ok in zip(line, verdicts) if not ok][0]
+    if p["kind"] == "ok":
+        return "the value %r is outside the language of the parser of %r (%r), but the parse succeeded" % (v, a["id"], _vp_of(a))
+    if p["ekind"].split("|")[0] not in VALUE_KINDS:
+        return "the value %r of %r is outside its parser's language: expected a value error, got %s" % (v, a["id"], p["ekind"])
+    return None
+
+
+def stored_wide_oracle(case, impl):
+    return stored_oracle(case, impl) or simple_oracle(case, impl)
+
+
+def make_wide_nontrivial(d):
+    """non-trivial = a successful parse that stores at least one value of an argument with a wide parser, or a
+    value-error rejection; the measured distribution (parser kinds stored, outcomes) goes into the evidence"""
+    def nt(case, impl):
+        p = parse_result(impl)
+        key = p["kind"] if p["kind"] != "err" else "err:" + p["ekind"]
+        d["outcome " + key] = d.get("outcome " + key, 0) + 1
+        cmd, _argv = parse_streams.decode_case(case)
+        if _simple_line(cmd, _argv) is not None:
+            d["simple lines (outcome decided exactly by the oracle)"] = \
+                d.get("simple lines (outcome decided exactly by the oracle)", 0) + 1
+        if p["kind"] == "err":
+            return p["ekind"].split("|")[0] in VALUE_KINDS
+        if p["kind"] != "ok":
+            return False
+        lv = parse_streams.levels(p["m"])
+        defs = _level_defs(cmd, [n for (_e, n) in lv if n is not None])
+        hit = False
+        for k, (ents, _n) in enumerate(lv):
+            if k >= len(defs):
+                break
+            for e in ents:
+                a = defs[k].get(e["id"])
+                if a is None or e["src"] == "?" or not gen_cmd.vp_is_wide(a.get("vp")):
+                    continue
+                nv = sum(len(g) for g in e["occ"])
+                if nv:
+                    hit = True
+                    key = "values stored under %s (%s)" % (_wide_kind(a["vp"]), e["src"])
+                    d[key] = d.get(key, 0) + nv
+                    if isinstance(a["vp"], tuple) and a["vp"][0] == "pv":
+                        names = {x: h for n_, al, h in a["vp"][1] for x in [n_] + list(al)}
+                        for g in e["occ"]:
+                            for raw in g:
+                                if names.get(raw):
+                                    d["stored values that are HIDDEN possible values"] = \
+                                        d.get("stored values that are HIDDEN possible values", 0) + 1
+                                elif raw not in names:
+                                    d["stored possible values matched caselessly (ignore_case)"] = \
+                                        d.get("stored possible values matched caselessly (ignore_case)", 0) + 1
+        return hit
+    return nt
+
+
+def stored_wide_project(r):
+    """full matches on success; the value-error kinds are C04's, other rejections only as `err`"""
+    p = parse_result(r)
+    if p["kind"] == "err":
+        k = p["ekind"].split("|")[0]
+        if k in ("DisplayHelp", "DisplayVersion"):
+            return "help-or-version"
+        return "err:" + k if k in VALUE_KINDS else "err"
+    if p["kind"] == "panic":
+        return "panic"
+    return r
+
+
 # ----------------------------------------------------------------- streams
 def streams(tier, rng):
     d_stored = {"measured": "on the implementation's results of this run (filled in while the stream is evaluated)"}
+    d_wide = {"measured": "on the implementation's results of this run (filled in while the stream is evaluated)"}
     sts = [
         Stream("int", gen_int(tier, rng), oracle=int_oracle, area="value", nontrivial=int_nontrivial),
         Stream("bool", gen_bool(tier, rng), oracle=bool_oracle, area="value", nontrivial=bool_nontrivial),
@@ -887,6 +1099,8 @@ def streams(tier, rng):
                nontrivial=lambda c, r: "(err " in (r or "")),
         Stream("stored", gen_stored(tier, rng), oracle=stored_oracle, area="parse", project=stored_project,
                nontrivial=make_stored_nontrivial(d_stored), describe=d_stored),
+        Stream("stored_wide", gen_stored_wide(tier, rng), oracle=stored_wide_oracle, area="parse", project=stored_wide_project,
+               nontrivial=make_wide_nontrivial(d_wide), describe=d_wide),
     ]
     if tier == "thorough":
         # builds without debug assertions: range() does not assert, verify_arg does not check
@@ -912,7 +1126,9 @@ TECHNIQUE = ("Coq proof (language equality of the ranged-integer, boolean-litera
              "declarative specifications; refinement of the typed store to a finite map; round 2: a state invariant of the "
              "parser model -- every value stored for an argument was accepted by that argument's value parser -- proved by "
              "one traversal of the token loop, the env/default phases, the subcommand recursion and the globals merge, and "
-             "bridged to the value-parser models) + regenerated literal/factory tables + extracted-model/implementation "
+             "bridged to the value-parser models; round 4: the parser model's value-parser type extended by the boolish, "
+             "falsey, non-empty, possible-value and every-width ranged parsers, delegating to those models, so the invariant "
+             "and its per-parser readings cover them) + regenerated literal/factory tables + extracted-model/implementation "
              "correspondence (value parsers directly and through the full parser)")
 LEVEL_TEXT = ("Machine-checked theorems (Coq 8.16, closed under the global context): the transcription of "
               "Ranged{I64,U64}ValueParser::parse_ref over a digit-by-digit model of str::parse accepts exactly the strings "
@@ -934,7 +1150,21 @@ LEVEL_TEXT = ("Machine-checked theorems (Coq 8.16, closed under the global conte
               "(C02's un-parser class) carrying a value outside the language is never accepted, and every value-error of "
               "parse_top is the refusal of an argument's parser of a value of the line or the definition, naming the "
               "argument; the ArgMatches of every successful level of a parse satisfies the typed-store invariant, so wrong-type and "
-              "unknown-id accesses on a parse result fail and leave every stored entry untouched.  The models are tied to "
+              "unknown-id accesses on a parse result fail and leave every stored entry untouched.  Round 4: the parser "
+              "model itself names BoolishValueParser, FalseyValueParser, NonEmptyStringValueParser, PossibleValuesParser "
+              "(ignore_case read from the argument, hidden values kept) and value_parser!(T).range(lo..=hi) for "
+              "u8/i8/u16/i16/u32/i32/u64/i64 and hands their strings to the C04 models, so all of the above holds for "
+              "commands using them; for all ten parser names `accepted by the parser model <-> in the documented language, "
+              "typed value as documented` (C04_accepts_reading): a stored boolish value is one of the regenerated literals "
+              "up to ASCII case and its typed value the truth value; falsey is false exactly for the empty string and the "
+              "false literals; a stored possible value is a declared name or alias of some value of the list -- hidden ones "
+              "included (C04_hidden_accepted) --, byte for byte unless the argument asked for ignore_case "
+              "(C04_possible_exact); a stored ranged value of any width is a decimal whose unbounded reading lies in the "
+              "declared bounds and in the type (65536 is no u16, 261 is not 5, -0 and 2^64 are no u64: C04_ranged_no_wrap, "
+              "C04_ranged_complete); outside the documented language each of the ten parsers answers InvalidUtf8 / "
+              "InvalidValue / ValueValidation, InvalidUtf8 only for ill-formed input (C04_outside_reading_rejected), and "
+              "C10's language predicate is this language (C04_in_lang_reading); the reading holds at every level of what "
+              "parse_top reports (C04_parse_top_stored, C04_parse_top_root_stored).  The models are tied to "
               "clap_builder by running the extracted model and the real crate (direct parse_ref, full Command path, and the "
               "full parser on random command trees with typed arguments) on the same generated cases on every check, with "
               "an independent python oracle on the implementation's output.")
@@ -944,7 +1174,9 @@ LEVEL_NOTE = ("Trusted: Coq kernel, extraction, OCaml driver, Rust harness, gene
               "C04_reject_names_arg_refuted); a failed try_remove_* moves the id to the end of ids() "
               "(C04_store_order_refuted, observation); the globals merge copies entries by id alone, so a subcommand that "
               "redefines the id of an ancestor's global argument with another value parser makes the ancestor report a value "
-              "its own parser refuses (C04_merged_typed_refuted, model = implementation, observation).  Differential only: "
-              "whole-parse statements for boolish/falsey/non-empty/possible/enum parsers and integer widths other than "
-              "i64/u8 (not expressible in the parser model's definitions), the typed store of the merged result and of levels "
+              "its own parser refuses (C04_merged_typed_refuted, model = implementation, observation).  Round 4 changed the MODEL "
+              "(Parse/Cmd.v vparser, Parse/Parser.v vp_parse; spec reader, harness and generator follow): pinned statements of "
+              "the other properties are textually unchanged and now quantify over the wider parser type.  Differential only: "
+              "whole-parse statements for EnumValueParser (derive side), the link `ic = the argument's ignore_case` outside "
+              "commands built by the spec reader (pv_coherent is a hypothesis of C04_stored_possible_arg), the typed store of the merged result and of levels "
               "that failed under ignore_errors, rejection completeness outside the un-parser class, unicase outside ASCII.")
